@@ -146,7 +146,7 @@ func Menu(s *Schema, typeName string, level int) []*Sel {
 	}
 	var out []*Sel
 	addField := func(fd *FieldDef) {
-		if fd.Name == "pick" || fd.Name == "rev" || fd.Name == "tri" {
+		if fd.Name == "pick" || fd.Name == "rev" || fd.Name == "tri" || fd.Name == "paint" {
 			return // argument-heavy fields are exercised by dedicated documents
 		}
 		if fd.Name == "ghost" {
